@@ -133,6 +133,19 @@ def ForeignKept (shardOf : Ups → Nat) (needListed : Bool) (pre post : State) :
 instance (f : Ups → Nat) (b : Bool) (x y : State) : Decidable (ForeignKept f b x y) := by
   unfold ForeignKept; infer_instance
 
+/-- an upstream event for a listed upstream removes no condition but (rewrites) the upstream state condition. -/
+def EventKeeps (shardOf : Ups → Nat) (u : Ups) (pre post : State) : Prop :=
+  isListed pre u = true →
+    ∀ r ∈ pre.conds, ¬(r.1 = shardOf u ∧ r.2.upstream = u ∧ r.2.name = stateName u) → r ∈ post.conds
+
+/-- `leaderCheck` removes nothing from the store of a shard that is still led. -/
+def LedStoresKept (pre post : State) : Prop :=
+  ∀ r ∈ pre.conds, pre.leaders.contains r.1 = true → pre.shards.contains r.1 = true → r ∈ post.conds
+
+instance (f : Ups → Nat) (u : Ups) (x y : State) : Decidable (EventKeeps f u x y) := by
+  unfold EventKeeps; infer_instance
+instance (x y : State) : Decidable (LedStoresKept x y) := by unfold LedStoresKept; infer_instance
+
 /-- the answer of an op is not an error. -/
 def Out.isOk : Out → Bool
   | .err _ => false
@@ -155,6 +168,8 @@ def judgeStep (shardOf : Ups → Nat) (pre : State) (op : Op) (ok : Bool) (post 
       chk "c18.other-instance-removed-by-report" (decide (OthersKept (some u) j pre post))
   | .acquire _ j _ _ => chk "c18.other-instance-removed-by-acquire" (decide (OthersKept none j pre post))
   | .heartbeat i t => chk "c18.heartbeat-not-recorded" (decide (HeartbeatRecorded i t pre post))
+  | .handle u => chk "c18.upstream-event-removes-conditions" (decide (EventKeeps shardOf u pre post))
+  | .leaderCheck => chk "c18.leaderCheck-empties-led-store" (decide (LedStoresKept pre post))
   | _ => []
 
 /-- The judge of one observed state. -/
